@@ -61,6 +61,12 @@ class Prop(BaseProp):
         res.see("order_modes", order_mode)
         with runner.sandbox() as sb:
             inp = os.path.join(sb, "work", "proj")
+            if outmode == "nested" and idx < self.NR[self.tier] and rng.random() < 0.5:
+                # sibling of the (nested) output directory whose name merely starts with the output directory's name
+                for extra in ("docs_out-internal", "docs_outer"):
+                    tree.dirs.add(extra)
+                    tree.files[os.path.join(extra, "inside.cmake")] = cmake_text(os.path.join(extra, "inside.cmake"))
+                res.count("output_dir_is_prefix_of_sibling_runs")
             tree.write(inp)
             cwd = os.path.join(sb, "work")
             home = os.path.join(sb, "home")
